@@ -1,12 +1,13 @@
 (** C03 — every operation of Model/Ops.v, in the hierarchy-free scope and
-    outside the finding classes, preserves the invariant ([step_good]); so do
-    whole histories ([run_good]). *)
+    outside the finding class validity_same_second, preserves the invariant
+    ([step_good]).  Since the fix wave COPY, UID COPY, the Junk/NonJunk move and
+    RENAME INBOX with messages preserve it unconditionally. *)
 From Coq Require Import String Ascii List Bool ZArith Lia.
 From Raven Require Import Base.GoStr Model.Store Model.Ops Spec.UidSpec Proof.StoreInv.
 Import ListNotations.
 Local Open Scope Z_scope.
 
-(** ---- the MAX(uid)+1 loops either assign a new instance or change nothing -- *)
+(** ---- COPY / UID COPY: allocation from uid_next, written back ------------------ *)
 
 Lemma insert_link_gser s msg mb uid fl s' :
   insert_link s msg mb uid fl = Some s' -> gser s' = gser s + 1.
@@ -14,90 +15,108 @@ Proof.
   unfold insert_link. destruct (existsb _ _); [discriminate|]. intros [= <-]. reflexivity.
 Qed.
 
-Lemma uidcopy_loop_gser uids : forall s sel dest next s',
-  uidcopy_loop s sel dest uids next = Some s' -> gser s <= gser s' /\ (gser s' = gser s -> s' = s).
+Lemma find_id_same_mboxes s s' mb : mboxes s' = mboxes s -> find_id s' mb = find_id s mb.
+Proof. intros E. unfold find_id. now rewrite E. Qed.
+
+Lemma find_link_same_links s s' mb u : links s' = links s -> find_link s' mb u = find_link s mb u.
+Proof. intros E. unfold find_link. now rewrite E. Qed.
+
+Lemma uidcopy_loop_good uids : forall s sel dest next d,
+  Inv (set_next s dest next) -> find_id s dest = Some d ->
+  match uidcopy_loop s sel dest uids next with
+  | Some sF => Good (set_next s dest next) sF
+  | None => True
+  end.
 Proof.
-  induction uids as [|u r IH]; simpl; intros s sel dest next s' H.
-  - injection H as <-. split; [lia | reflexivity].
-  - destruct (find_link s sel u) as [l|]; [|now apply IH in H].
-    destruct (insert_link s (lk_msg l) dest next (add_recent (lk_flags l))) as [s1|] eqn:E; [|discriminate].
-    apply insert_link_gser in E. apply IH in H. destruct H as [H _]. split; lia.
+  induction uids as [|u r IH]; simpl; intros s sel dest next d I Hf.
+  - now apply Good_refl.
+  - destruct (find_link s sel u) as [l|]; [|now apply (IH s sel dest next d)].
+    destruct (insert_set_good s (lk_msg l) dest next (add_recent (lk_flags l)) d I Hf) as (s' & -> & G & Em & _).
+    assert (Hf' : find_id s' dest = Some d) by (rewrite (find_id_same_mboxes s s' dest Em); exact Hf).
+    pose proof (IH s' sel dest (next + 1) d (proj1 G) Hf') as K.
+    destruct (uidcopy_loop s' sel dest r (next + 1)); [|exact Logic.I].
+    eapply Good_trans; eauto.
 Qed.
 
-Lemma copy_loop_gser seqs : forall s sel dest next s',
-  copy_loop s sel dest seqs next = Some s' -> gser s <= gser s' /\ (gser s' = gser s -> s' = s).
+Lemma copy_loop_good seqs : forall s sel dest next d,
+  Inv (set_next s dest next) -> find_id s dest = Some d ->
+  match copy_loop s sel dest seqs next with
+  | Some sF => Good (set_next s dest next) sF
+  | None => True
+  end.
 Proof.
-  induction seqs as [|n r IH]; simpl; intros s sel dest next s' H.
-  - injection H as <-. split; [lia | reflexivity].
-  - destruct (nth_error (links_sorted s sel) (Z.to_nat (n - 1))) as [l|]; [|discriminate].
-    destruct (insert_link s (lk_msg l) dest next (add_recent (lk_flags l))) as [s1|] eqn:E; [|discriminate].
-    apply insert_link_gser in E. apply IH in H. destruct H as [H _]. split; lia.
+  induction seqs as [|n r IH]; simpl; intros s sel dest next d I Hf.
+  - now apply Good_refl.
+  - destruct (nth_error (links_sorted s sel) (Z.to_nat (n - 1))) as [l|]; [|exact Logic.I].
+    destruct (insert_set_good s (lk_msg l) dest next (add_recent (lk_flags l)) d I Hf) as (s' & -> & G & Em & _).
+    assert (Hf' : find_id s' dest = Some d) by (rewrite (find_id_same_mboxes s s' dest Em); exact Hf).
+    pose proof (IH s' sel dest (next + 1) d (proj1 G) Hf') as K.
+    destruct (copy_loop s' sel dest r (next + 1)); [|exact Logic.I].
+    eapply Good_trans; eauto.
 Qed.
 
-Lemma op_uidcopy_clean s sel set d :
-  gser (fst (op_uidcopy s sel set d)) = gser s -> fst (op_uidcopy s sel set d) = s.
+Lemma op_uidcopy_good s sel set d : Inv s -> Good s (fst (op_uidcopy s sel set d)).
 Proof.
-  unfold op_uidcopy. destruct (resolve_uids s sel set) as [|u r]; [reflexivity|].
-  destruct (find_name s d) as [m|]; [|reflexivity].
-  destruct (uidcopy_loop s sel (mb_id m) (u :: r) (max_uid s (mb_id m) + 1)) as [s'|] eqn:E; [|reflexivity].
-  simpl. intros G. apply uidcopy_loop_gser in E. now apply E.
+  intros I. unfold op_uidcopy. destruct (resolve_uids s sel set) as [|u r]; [now apply Good_refl|].
+  destruct (find_name s d) as [m|] eqn:Fn; [|now apply Good_refl].
+  apply find_name_some in Fn. destruct Fn as [Hm _]. pose proof (find_id_in s m I Hm) as Hf.
+  pose proof (set_next_self s (mb_id m) m (inv_ids s I) Hf) as Es.
+  assert (IT : Inv (set_next s (mb_id m) (mb_next m))) by (rewrite Es; exact I).
+  pose proof (uidcopy_loop_good (u :: r) s sel (mb_id m) (mb_next m) m IT Hf) as K.
+  destruct (uidcopy_loop s sel (mb_id m) (u :: r) (mb_next m)); simpl; [|now apply Good_refl].
+  rewrite Es in K. exact K.
 Qed.
 
-Lemma op_copy_clean s sel set d :
-  gser (fst (op_copy s sel set d)) = gser s -> fst (op_copy s sel set d) = s.
+Lemma op_copy_good s sel set d : Inv s -> Good s (fst (op_copy s sel set d)).
 Proof.
-  unfold op_copy. destruct (resolve_seqs s sel set) as [|u r]; [reflexivity|].
-  destruct (find_name s d) as [m|]; [|reflexivity].
-  destruct (copy_loop s sel (mb_id m) (u :: r) (max_uid s (mb_id m) + 1)) as [s'|] eqn:E; [|reflexivity].
-  simpl. intros G. apply copy_loop_gser in E. now apply E.
+  intros I. unfold op_copy. destruct (resolve_seqs s sel set) as [|u r]; [now apply Good_refl|].
+  destruct (find_name s d) as [m|] eqn:Fn; [|now apply Good_refl].
+  apply find_name_some in Fn. destruct Fn as [Hm _]. pose proof (find_id_in s m I Hm) as Hf.
+  pose proof (set_next_self s (mb_id m) m (inv_ids s I) Hf) as Es.
+  assert (IT : Inv (set_next s (mb_id m) (mb_next m))) by (rewrite Es; exact I).
+  pose proof (copy_loop_good (u :: r) s sel (mb_id m) (mb_next m) m IT Hf) as K.
+  destruct (copy_loop s sel (mb_id m) (u :: r) (mb_next m)); simpl; [|now apply Good_refl].
+  rewrite Es in K. exact K.
 Qed.
 
-(** ---- UID STORE: flag updates only, unless a Junk/NonJunk move assigns ------ *)
+(** ---- UID STORE with the Junk / NonJunk move ------------------------------------- *)
 
-Definition Quiet (s s' : store) : Prop :=
-  gser s <= gser s' /\ (gser s' = gser s -> CoreEq s s').
-
-Lemma Quiet_refl s : Quiet s s.
-Proof. split; [lia | intros _; apply CoreEq_refl]. Qed.
-
-Lemma Quiet_trans a b c : Quiet a b -> Quiet b c -> Quiet a c.
+Lemma set_flags_core s mb u fl : CoreEq s (set_flags s mb u fl).
 Proof.
-  intros [A1 A2] [B1 B2]. split; [lia|]. intros E.
-  assert (E1 : gser b = gser a) by lia. assert (E2 : gser c = gser b) by lia.
-  eapply CoreEq_trans; [apply A2, E1 | apply B2, E2].
-Qed.
-
-Lemma set_flags_quiet s mb u fl : Quiet s (set_flags s mb u fl).
-Proof.
-  split; [simpl; lia|]. intros _. repeat split. simpl. rewrite map_map. apply map_ext.
+  repeat split. simpl. rewrite map_map. apply map_ext.
   intros l. destruct (at_uid mb u l); reflexivity.
 Qed.
 
-Lemma move_message_quiet s msg src d fl : Quiet s (fst (move_message s msg src d fl)).
+Lemma move_message_good s msg src d fl : Inv s -> Good s (fst (move_message s msg src d fl)).
 Proof.
-  unfold move_message. destruct (find_name s d) as [m|]; [|apply Quiet_refl].
-  destruct (mb_id m =? src); [apply Quiet_refl|].
-  destruct (insert_link s msg (mb_id m) (max_uid s (mb_id m) + 1) fl) as [s1|] eqn:E; [|apply Quiet_refl].
-  apply insert_link_gser in E. unfold Quiet, delete_links, set_links. simpl. split; [lia | intros X; exfalso; lia].
+  intros I. unfold move_message. destruct (find_name s d) as [m|] eqn:Fn; [|now apply Good_refl].
+  destruct (mb_id m =? src); [now apply Good_refl|].
+  apply find_name_some in Fn. destruct Fn as [Hm _]. pose proof (find_id_in s m I Hm) as Hf.
+  pose proof (set_next_self s (mb_id m) m (inv_ids s I) Hf) as Es.
+  assert (IT : Inv (set_next s (mb_id m) (mb_next m))) by (rewrite Es; exact I).
+  destruct (insert_set_good s msg (mb_id m) (mb_next m) fl m IT Hf) as (s' & -> & G & _).
+  rewrite Es in G. simpl. eapply Good_trans; [exact G|]. apply Good_delete_links. apply G.
 Qed.
 
-Lemma uidstore_one_quiet s sel mode new u : Quiet s (uidstore_one s sel mode new u).
+Lemma uidstore_one_good s sel mode new u : Inv s -> Good s (uidstore_one s sel mode new u).
 Proof.
-  unfold uidstore_one. destruct (find_link s sel u) as [l|]; [|apply Quiet_refl].
+  intros I. unfold uidstore_one. destruct (find_link s sel u) as [l|]; [|now apply Good_refl].
+  assert (SF : forall fl, Good s (set_flags s sel u fl)) by (intros; apply Good_core_eq; auto; apply set_flags_core).
   destruct (negb (fmem JUNK (lk_flags l)) && fmem JUNK (calc_flags (lk_flags l) new mode)).
-  - pose proof (move_message_quiet s (lk_msg l) sel SPAM (fremove NONJUNK (calc_flags (lk_flags l) new mode))) as Q.
-    destruct (move_message s (lk_msg l) sel SPAM _) as [s1 ok]. destruct ok; [exact Q | apply set_flags_quiet].
+  - pose proof (move_message_good s (lk_msg l) sel SPAM (fremove NONJUNK (calc_flags (lk_flags l) new mode)) I) as Q.
+    destruct (move_message s (lk_msg l) sel SPAM _) as [s1 ok]. destruct ok; [exact Q | apply SF].
   - destruct (negb (fmem NONJUNK (lk_flags l)) && fmem NONJUNK (calc_flags (lk_flags l) new mode)).
-    + pose proof (move_message_quiet s (lk_msg l) sel INBOX (fremove JUNK (calc_flags (lk_flags l) new mode))) as Q.
-      destruct (move_message s (lk_msg l) sel INBOX _) as [s1 ok]. destruct ok; [exact Q | apply set_flags_quiet].
-    + apply set_flags_quiet.
+    + pose proof (move_message_good s (lk_msg l) sel INBOX (fremove JUNK (calc_flags (lk_flags l) new mode)) I) as Q.
+      destruct (move_message s (lk_msg l) sel INBOX _) as [s1 ok]. destruct ok; [exact Q | apply SF].
+    + apply SF.
 Qed.
 
-Lemma uidstore_fold_quiet sel mode new uids : forall s,
-  Quiet s (fold_left (fun s' u => uidstore_one s' sel mode new u) uids s).
+Lemma uidstore_fold_good sel mode new uids : forall s, Inv s ->
+  Good s (fold_left (fun s' u => uidstore_one s' sel mode new u) uids s).
 Proof.
-  induction uids as [|u r IH]; simpl; intros s; [apply Quiet_refl|].
-  eapply Quiet_trans; [apply uidstore_one_quiet | apply IH].
+  induction uids as [|u r IH]; simpl; intros s I; [now apply Good_refl|].
+  pose proof (uidstore_one_good s sel mode new u I) as G.
+  eapply Good_trans; [exact G|]. apply IH. apply G.
 Qed.
 
 (** ---- one clean step ---------------------------------------------------------- *)
@@ -148,20 +167,9 @@ Proof.
     assert (Hf : find_id s2 (mb_id m) = Some m) by (apply find_id_in; auto).
     destruct (add_message_good s2 (next_msg s) (mb_id m) fl m I2 Hf) as (s3 & -> & G & _).
     simpl. eapply good_after_core; eauto.
-  - (* uid copy *)
-    destruct (op_uidcopy s sel set d) as [s' r] eqn:E. simpl in *.
-    destruct (gser s' =? gser s) eqn:G; [|discriminate]. apply Z.eqb_eq in G.
-    pose proof (op_uidcopy_clean s sel set d) as K. rewrite E in K. simpl in K. rewrite (K G).
-    now apply Good_refl.
-  - (* copy *)
-    destruct (op_copy s sel set d) as [s' r] eqn:E. simpl in *.
-    destruct (gser s' =? gser s) eqn:G; [|discriminate]. apply Z.eqb_eq in G.
-    pose proof (op_copy_clean s sel set d) as K. rewrite E in K. simpl in K. rewrite (K G).
-    now apply Good_refl.
-  - (* uid store *)
-    unfold op_uidstore in *. simpl in *.
-    destruct (gser _ =? gser s) eqn:G; [|discriminate]. apply Z.eqb_eq in G.
-    apply Good_core_eq; auto. now apply (uidstore_fold_quiet sel mode fl (resolve_uids s sel set) s).
+  - now apply op_uidcopy_good.
+  - now apply op_copy_good.
+  - unfold op_uidstore. simpl. now apply uidstore_fold_good.
   - now apply Good_delete_links.
   - now apply Good_delete_links.
   - (* create *)
@@ -197,33 +205,30 @@ Proof.
       destruct (find_name s INBOX) as [ib|] eqn:Fi; [|apply Good_refl; auto].
       destruct (create_mailbox_row s b t) as [[s1 nid]|] eqn:Cr; [|apply Good_refl; auto].
       destruct (create_row_shape s b t s1 nid Cr) as (_ & Enid & Es1).
-      assert (El : links s1 = links s) by (rewrite Es1; reflexivity).
+      apply find_name_some in Fi. destruct Fi as [Hib _].
       assert (Hnone : forall l, In l (links s) -> lk_mbox l <> nid).
       { intros l Hl E. destruct (inv_home s I l Hl) as (m & Hm & Ei).
         pose proof (fresh_id_gt (map mb_id (mboxes s)) (mb_id m) (in_map mb_id _ _ Hm)). lia. }
-      unfold reparent in *. destruct (mb_id ib =? nid) eqn:Eq.
-      * simpl in *. destruct (links_in s (mb_id ib)); [|discriminate].
-        destruct (used_b s b t) eqn:U; [discriminate|].
-        destruct (create_row_good s b t s1 nid I Cr (used_b_false _ _ _ U)) as (G & _). exact G.
-      * assert (Hex : existsb (fun l => existsb (at_uid nid (lk_uid l)) (links s1)) (links_in s1 (mb_id ib)) = false).
-        { apply not_true_is_false. intros X. apply existsb_exists in X. destruct X as (l & _ & X).
-          apply existsb_exists in X. destruct X as (l' & Hl' & X). unfold at_uid in X.
-          apply andb_true_iff in X. destruct X as [X _]. apply Z.eqb_eq in X.
-          rewrite El in Hl'. exact (Hnone l' Hl' X). }
-        rewrite Hex in *. simpl in *.
-        destruct (links_in s (mb_id ib)) eqn:Li; [|discriminate].
-        destruct (used_b s b t) eqn:U; [discriminate|].
-        destruct (create_row_good s b t s1 nid I Cr (used_b_false _ _ _ U)) as (G & _).
-        eapply Good_trans; [exact G|]. destruct G as [I1 _].
-        apply Good_core_eq; auto.
-        assert (Li1 : links_in s1 (mb_id ib) = []) by (unfold links_in in *; rewrite El; exact Li).
-        unfold relog. rewrite Li1. simpl.
-        repeat split; simpl.
-        -- destruct (find_id s1 nid); simpl; now rewrite app_nil_r.
-        -- symmetry. rewrite map_map. apply map_ext_in.
-           intros l Hl. destruct (in_mbox (mb_id ib) l) eqn:X; [|reflexivity].
-           exfalso. assert (In l (links_in s1 (mb_id ib))) by (apply filter_In; auto).
-           rewrite Li1 in H. contradiction.
+      assert (Hne : mb_id ib <> nid).
+      { pose proof (fresh_id_gt (map mb_id (mboxes s)) (mb_id ib) (in_map mb_id _ _ Hib)). lia. }
+      assert (Hx : forall l, In l (links s) -> lk_mbox l = mb_id ib -> lk_uid l < mb_next ib).
+      { intros l Hl E. now apply (Inv_uid_below s ib l I). }
+      destruct (used_b s b t) eqn:U.
+      * (* the rename cannot fail, so this is class CSameSecond *)
+        exfalso.
+        assert (Hex : exists s2, reparent (set_next s1 nid (mb_next ib)) (mb_id ib) nid = Some s2).
+        { unfold reparent. destruct (mb_id ib =? nid) eqn:E0; [eauto|].
+          match goal with |- context [existsb ?f ?l] => assert (X : existsb f l = false) end.
+          { apply not_true_is_false. intros X. apply existsb_exists in X. destruct X as (l & _ & X).
+            apply existsb_exists in X. destruct X as (l' & Hl' & X). unfold at_uid in X.
+            apply andb_true_iff in X. destruct X as [X _]. apply Z.eqb_eq in X.
+            rewrite Es1 in Hl'. simpl in Hl'. exact (Hnone l' Hl' X). }
+          rewrite X. eauto. }
+        destruct Hex as (s2 & R). rewrite R in C. simpl in C. discriminate.
+      * assert (N : ~ In (b, t) (gused s)) by (now apply used_b_false).
+        destruct (create_row_good s b t s1 nid I Cr N) as ([I1 _] & _).
+        destruct (reparent_good s s1 (mb_id ib) nid b t (mb_next ib) I I1) as (s2 & -> & G); auto;
+          rewrite Es1; reflexivity.
     + (* plain RENAME *)
       destruct (find_name s a) as [m|] eqn:Fa; [|apply Good_refl; auto].
       destruct (find_name s b) eqn:Fb; [apply Good_refl; auto|].
